@@ -11,7 +11,7 @@ import RV.Base.Proto
     sbind P N ov
     cq m U g | cqs m U g | qname m U | qstrict m U | curie m U g | n3 m U | expand S | reset m
     parse m P N P N …  | parsexml m P N P N … | ser m S P O
-    serdoc m U g U g …                   -> doc <d>n …> (document prefix table), then reset m
+    serdoc m fb U g U g …                   -> doc <d>n …> (document prefix table), then reset m
 
   Output of every operation:  `<out>|L <p>n sorted>|P <p>n lookups>|N <n>p lookups>`
   with strings printed raw, None as `~`.
@@ -98,7 +98,7 @@ def parseOp : List String → Option Op
     let ps ← ps.mapM (fun pn => pn.1.map (fun p => (p, pn.2)))
     pure (.parse (← bool? m) ps)
   | "parsexml" :: m :: r => do pure (.parsexml (← bool? m) (← pairs? r))
-  | "serdoc" :: m :: r => do pure (.serdoc (← bool? m) (← ugs? r))
+  | "serdoc" :: m :: fb :: r => do pure (.serdoc (← bool? m) (← bool? fb) (← ugs? r))
   | _ => none
 
 def vocab? (ws : List String) : Option (List Str × List Str) :=
